@@ -62,17 +62,32 @@ theorem keck_mem_unit (rings : Nat) (pitch ap segR segA : Rat) (dirs : List (Rat
     obtain ⟨a, b⟩ := s
     exact htr b (List.of_mem_zip hs).2
   have hbody : 0 ≤ val (Shape.mul (.seg ((hexPositions rings pitch ap).zip trs) (.regpoly true segR segA dirs 0 0))
-      (.compl (.circle obsR 0 0))) p ∧
+      (.compl (.disk obsR))) p ∧
       val (Shape.mul (.seg ((hexPositions rings pitch ap).zip trs) (.regpoly true segR segA dirs 0 0))
-      (.compl (.circle obsR 0 0))) p ≤ 1 := by
+      (.compl (.disk obsR))) p ≤ 1 := by
     show 0 ≤ _ * _ ∧ _ * _ ≤ 1
     exact mul_mem_unit (seg_val_in_unit_interval hseg)
-      (values_in_unit_interval (Binary.compl (Binary.circle ..)) p)
+      (values_in_unit_interval (Binary.compl (Binary.disk ..)) p)
   cases spiders with
   | nil => exact hbody
   | cons s0 rest =>
     show 0 ≤ _ * _ ∧ _ * _ ≤ 1
     exact mul_mem_unit hbody
       (values_in_unit_interval (spiderFold_binary hw rest _ (Binary.spiderInf ..)) p)
+
+/-- with all segment transmissions equal to 1 the Keck recipe is a `Binary` shape -/
+theorem keck_binary_of_unit (rings : Nat) (pitch ap segR segA : Rat) (dirs : List (Rat × Rat))
+    {trs : List Rat} (htr : ∀ t ∈ trs, t = 1) (obsR : Rat) (spiders : List (Rat × Rat)) (hw : Rat) :
+    Binary (keckShape rings pitch ap segR segA dirs trs obsR spiders hw) := by
+  have hseg : ∀ s ∈ (hexPositions rings pitch ap).zip trs, s.2 = 1 := by
+    intro s hs
+    obtain ⟨a, b⟩ := s
+    exact htr b (List.of_mem_zip hs).2
+  have hbody : Binary (Shape.mul (.seg ((hexPositions rings pitch ap).zip trs) (.regpoly true segR segA dirs 0 0))
+      (.compl (.disk obsR))) :=
+    Binary.mul (Binary.seg (Binary.regpoly ..) hseg) (Binary.compl (Binary.disk ..))
+  cases spiders with
+  | nil => exact hbody
+  | cons s0 rest => exact Binary.mul hbody (spiderFold_binary hw rest _ (Binary.spiderInf ..))
 
 end HcipyVerif.Aperture
